@@ -344,9 +344,46 @@ def run(prop):
     """returns a list of result records shaped like runner.run_task's"""
     global _SPEC
     import importlib
+    _SPEC = importlib.import_module("spec.frames")
+    out = []
+    if prop == "C12":
+        out += run_c12()
+    st = [x for x in _SPEC.STATELESS if prop in x[2]]
+    if st:
+        out += run_stateless(prop, st)
+    return out
+
+
+def run_stateless(prop, entries):
+    import hashlib
+    import time
+    t0 = time.time()
+    obs = []
+    shas = []
+    for mod, cname, _ in entries:
+        cnode, meths = class_methods(mod, cname)
+        shas.append(hashlib.sha256(ast.unparse(cnode).encode()).hexdigest()[:16])
+        ws = []
+        for name, fn in sorted(meths.items()):
+            if name == "__init__":
+                continue
+            ws += writes_in(fn, [(("self",), "self")], "%s.%s.%s" % (mod, cname, name))
+        obs.append({"id": "%s.%s/frame:writes-no-field-of-self" % (mod, cname), "kind": "frame",
+                    "verdict": "proved" if not ws else "failed", "ms": 0.0, "solver": "syntactic",
+                    "detail": ("no method other than __init__ assigns or mutates a field of self (%d methods)" % (len(meths) - (1 if "__init__" in meths else 0)))
+                    if not ws else "state carried from one token to the next: " + "; ".join("%s (%s at %s)" % (w.field, w.how, w.where) for w in ws[:6]),
+                    "model": None, "path": 0, "tags": [prop]})
+    return [{"task": ["spec.frames", "stateless", 0], "target": "stateless(%s)" % prop, "obligations": obs, "paths": 1,
+             "completed_paths": 1, "error": None, "out_of_reach": [], "inlined": [], "assumed": [], "notes": [],
+             "solver_ms": 0, "queries": 0, "wall_s": round(time.time() - t0, 2),
+             "function": {"name": "statelessness of " + ", ".join("%s.%s" % (m, c) for m, c, _ in entries),
+                          "file": entries[0][0].replace(".", "/") + ".py", "lines": [1, 1],
+                          "sha256": hashlib.sha256(repr(shas).encode()).hexdigest()[:16], "contract": "spec.frames.STATELESS", "case": None}}]
+
+
+def run_c12():
     import time
     import hashlib
-    _SPEC = importlib.import_module("spec.frames")
     SP = _SPEC
     t0 = time.time()
     obs = []
